@@ -21,15 +21,24 @@ package discovery
 //@   loop 1 invariant fresh(nomatch) && fresh(match)
 //@   loop 1 invariant forall i int :: 0 <= i && i < len(entries) ==> entries[i] == old(entries[i])
 
-//@ func entriesWithPathErrors [C03]
+//@ func entriesWithPathErrors [C03, C20]
 //@   ensures forall k int :: 0 <= k && k < len(match) ==> match[k].PathError != nil
+//@   ensures len(match) > 0 ==> (exists i int :: 0 <= i && i < len(entries) && entries[i].PathError != nil)
+//@   loop 1 invariant len(match) > 0 ==> (exists i int :: 0 <= i && i < iter && entries[i].PathError != nil)
 //@   ensures (exists i int :: 0 <= i && i < len(entries) && entries[i].PathError != nil) ==> len(match) > 0
 //@   loop 1 invariant 0 <= iter && iter <= len(entries)
 //@   loop 1 invariant forall k int :: 0 <= k && k < len(match) ==> match[k].PathError != nil
 //@   loop 1 invariant (exists i int :: 0 <= i && i < iter && entries[i].PathError != nil) ==> len(match) > 0
 
 // The state table: how a matched (before, after) pair is classified. Asserted where the entry is handed on.
-//@ func GitBranchFinder.Find [C03]
+// (C20) a rule that is gone from HEAD is held back (not handed on as Removed, so rule/dependency never sees it) only
+// when the HEAD version of the file has an entry that failed at file or group level - a broken rule elsewhere in the
+// file does not hide a removal
+//@ func GitBranchFinder.Find [C03, C20]
+//@   ghost pathErrs int
+//@   after call entriesWithPathErrors set pathErrs = len(result)
+//@   at call entriesWithPathErrors assert arg0 == entriesAfter
+//@   at call Debug#8 assert [C20] me.hasBefore && !me.hasAfter && pathErrs > 0 && len(failedEntries) == pathErrs
 //@   at call append#1 assert !me.hasBefore && me.hasAfter && me.after.State == Added
 //@   at call append#2 assert me.hasBefore && me.hasAfter &&
 //@        me.after.State == ((me.isIdentical && !me.wasMoved) ? Noop : (me.wasMoved ? Moved : Modified))
